@@ -52,7 +52,7 @@ P = {
          "Theorems (Properties/C18.v, Effects/*.v).", "4 C18"),
 }
 
-HOLD = {"C15", "C16", "C17", "C18"}     # waiting for the dynamic probes (/verif/probe) before being registered
+HOLD = set()     # waiting for the dynamic probes (/verif/probe) before being registered
 
 def has_property_file(pid):
     if pid in HOLD: return False
